@@ -12,15 +12,17 @@
 (*         and every level's next / prev chain                                         *)
 EXTENDS Skiplist, Json
 
+CONSTANTS Strict   \* TRUE: forced/explored hook runs must follow Skiplist.tla step by step; FALSE: results and traversals only
+
 Trace == ndJsonDeserialize("trace.ndjson")
 VARIABLES l, A
-tvars == <<l, A>>
+tvars == <<l, A, vars>>
 Ev == Trace[l]
 Is(o) == l <= Len(Trace) /\ Trace[l].op = o /\ l' = l + 1
 
-TraceInit == l = 1 /\ A = <<>> /\ TLCSet(1, 0)
+TraceInit == l = 1 /\ A = <<>> /\ Init /\ TLCSet(1, 0)   \* the model's own variables are idle here
 
-Adds == Is("adds") /\ A' = Ev.list
+Adds == Is("adds") /\ A' = Ev.list /\ UNCHANGED vars
 AllK == {A[i][2] : i \in 1..Len(A)}
 OkCount(k) == Cardinality({i \in 1..Len(A) : A[i][2] = k /\ A[i][3] = 1})
 ExCount(k) == Cardinality({i \in 1..Len(A) : A[i][2] = k /\ A[i][3] = 0})
@@ -32,19 +34,55 @@ StartedBy(hi) == {A[i][2] : i \in {j \in 1..Len(A) : A[j][4] <= hi}}
 (* concurrent readers only ever see an ordered subset (forward scans also hold every completed insert) *)
 Scan == /\ Is("scan")
         /\ ReaderOK(Ev.seq, Ev.asc, StartedBy(Ev.hi), IF Ev.asc THEN CompletedBefore(Ev.lo) ELSE {})
-        /\ UNCHANGED A
+        /\ UNCHANGED <<A, vars>>
 
 (* quiescence *)
-Final == /\ Is("final")
-         /\ QuiescentOK(Ev.fwd, Ev.bwd, AllK)
-         /\ Len(Ev.lv) = Len(Ev.blv) /\ Len(Ev.lv) >= 1
-         /\ Ev.lv[1] = Ev.fwd
-         /\ \A i \in 1..Len(Ev.lv) : LevelOK(Ev.lv[i], Ev.blv[i], Elems(Ev.lv[i]))
-         /\ \A i \in 1..(Len(Ev.lv) - 1) : Elems(Ev.lv[i + 1]) \subseteq Elems(Ev.lv[i])
-         /\ \A k \in AllK : OkCount(k) = 1 /\ OkCount(k) + ExCount(k) = Cardinality({i \in 1..Len(A) : A[i][2] = k})
-         /\ UNCHANGED A
 
-TraceNext == Adds \/ Scan \/ Final
+FinalCond(e) ==
+         /\ QuiescentOK(e.fwd, e.bwd, AllK)
+         /\ Len(e.lv) = Len(e.blv) /\ Len(e.lv) >= 1
+         /\ e.lv[1] = e.fwd
+         /\ \A i \in 1..Len(e.lv) : LevelOK(e.lv[i], e.blv[i], Elems(e.lv[i]))
+         /\ \A i \in 1..(Len(e.lv) - 1) : Elems(e.lv[i + 1]) \subseteq Elems(e.lv[i])
+         /\ \A k \in AllK : OkCount(k) = 1 /\ OkCount(k) + ExCount(k) = Cardinality({i \in 1..Len(A) : A[i][2] = k})
+
+Final == Is("final") /\ FinalCond(Ev) /\ UNCHANGED <<A, vars>>
+
+(* sequential probe rounds (one Inserter): every rejected round is reported, the trace continues.       *)
+(* reason "dupok": the only thing wrong is that a repeated Add of a present key returned nil and the key *)
+(* is linked more than once (the list is still sorted non-strictly, complete, and backward = reverse).   *)
+SortedNonStrict(s) == \A i \in 1..(Len(s) - 1) : s[i] <= s[i + 1]
+DupOnly(e) == /\ SortedNonStrict(e.fwd) /\ Elems(e.fwd) = AllK /\ e.bwd = Rev(e.fwd)
+              /\ \A k \in AllK : OkCount(k) >= 1 /\ OkCount(k) = Cardinality({i \in 1..Len(e.fwd) : e.fwd[i] = k})
+PAdds == Is("padds") /\ A' = Ev.list /\ UNCHANGED vars
+PFinal == /\ Is("pfinal")
+          /\ (IF FinalCond(Ev) THEN TRUE ELSE PrintT(<<"PROBE-REJECT", Ev.id, IF DupOnly(Ev) THEN "dupok" ELSE "other">>))
+          /\ UNCHANGED <<A, vars>>
+
+(* ---- mode C: runs through internal/verifhook Points (driver TestVProtoSkiplistHooks).                      *)
+(* sstart: K goroutines are parked at their first Point.  step: the scheduler released thread t, which was   *)
+(* parked at Point `site` (= the spec's pc), and the real list afterwards has these per-level forward /      *)
+(* backward key chains and height.  ret: Add returned.  The run ends with the ordinary adds / final events.   *)
+ResetModel == /\ nxt' = [lv \in Levels |-> [n \in Nodes |-> IF n = HeadN THEN TailN ELSE -1]]
+              /\ prv' = [lv \in Levels |-> [n \in Nodes |-> IF n = TailN THEN HeadN ELSE -1]]
+              /\ hgt' = 1
+              /\ pc' = [t \in Threads |-> "findtop"] /\ lvl' = [t \in Threads |-> 0] /\ lh' = [t \in Threads |-> 0]
+              /\ sp' = [t \in Threads |-> [lv \in Levels |-> HeadN]] /\ sn' = [t \in Threads |-> [lv \in Levels |-> TailN]]
+              /\ tnp' = [t \in Threads |-> -1] /\ fnd' = [t \in Threads |-> FALSE] /\ res' = [t \in Threads |-> "none"]
+              /\ rpos' = HeadN /\ rseq' = <<>> /\ rdir' = "done"
+SStart == /\ Is("sstart") /\ Ev.k = K /\ A' = <<>>
+          /\ (IF Strict THEN ResetModel ELSE UNCHANGED vars)
+ChainsMatch(e) == /\ \A lv \in Levels : KeysOfSeq(Fwd(lv)) = e.fw[lv + 1] /\ KeysOfSeq(Bwd(lv)) = e.bw[lv + 1]
+                  /\ hgt = e.hgt
+HStep == /\ Is("step")
+         /\ (IF Strict THEN (pc[Ev.t] = Ev.site /\ Step(Ev.t) /\ ChainsMatch(Ev)') ELSE UNCHANGED vars)
+         /\ UNCHANGED A
+HRet == /\ Is("ret")
+        /\ (Strict => (pc[Ev.t] = "done" /\ res[Ev.t] = Ev.res))
+        /\ UNCHANGED <<A, vars>>
+NoFollow == Is("nofollow") /\ ~Strict /\ UNCHANGED <<A, vars>>
+
+TraceNext == Adds \/ Scan \/ Final \/ PAdds \/ PFinal \/ SStart \/ HStep \/ HRet \/ NoFollow
 TraceSpec == TraceInit /\ [][TraceNext]_tvars
 HWM == IF l - 1 > TLCGet(1) THEN TLCSet(1, l - 1) ELSE TRUE
 TraceAccepted == PrintT(<<"HWM", TLCGet(1)>>) /\ TLCGet(1) = Len(Trace)
